@@ -132,7 +132,7 @@ fn gen_expr_opt(rng: &mut Rng, p: &Pools, c: &Ctx, may_unwind: bool) -> String {
         return rng.pick(&p.panicking_exprs).clone();
     }
     // holiday contexts get holiday expressions more often
-    let hol = matches!(c, Ctx::Holidays(_) | Ctx::TzHolidays(..) | Ctx::Coords(..));
+    let hol = matches!(c, Ctx::Holidays(_) | Ctx::TzHolidays(..) | Ctx::Coords(..) | Ctx::Bounded(_) | Ctx::Custom(_));
     let sun = matches!(c, Ctx::TzCoords(..) | Ctx::Coords(..));
     if sun && rng.chance(1, 2) {
         rng.pick(&p.sun_exprs).clone()
@@ -186,7 +186,8 @@ fn gen_op(rng: &mut Rng, p: &Pools, coords_ok: bool, n_prebuilt: u32) -> Op {
                     (Ctx::Holidays(_), 0 | 1) => Ctx::Holidays(p.pick_country(rng)),
                     (Ctx::Custom(_), _) => Ctx::Custom(rng.below(6) as u32),
                     (Ctx::Default, 0) | (Ctx::Bounded(_), 0 | 1) => Ctx::Bounded(*rng.pick(&[1, 2, 7, 30, 366])),
-                    (Ctx::Bounded(_), _) => Ctx::Default,
+                    (Ctx::Bounded(_), 2) => Ctx::Default,
+                    (Ctx::Bounded(_), _) => Ctx::Holidays(p.pick_country(rng)),
                     (Ctx::Tz(_), 0) => Ctx::Tz(rng.pick(&p.zones).to_string()),
                     (Ctx::TzHolidays(z, _), 0 | 1) => Ctx::TzHolidays(z.clone(), p.pick_country(rng)),
                     _ => gen_ctx(rng, p, false),
@@ -297,6 +298,36 @@ pub fn generate(rng: &mut Rng, p: &Pools, mode: &str) -> Workload {
             threads[a].insert(pa, o1);
             let pb = rng.usize_below(threads[b].len() + 1);
             threads[b].insert(pb, o2);
+        }
+    }
+    // swarm, sizes: one workload in sixty has 17-24 threads with one or two cheap operations each, all on the same
+    // two or three expressions (more callers at once than any small fixed pool of buffers or slots)
+    if !c10 && rng.chance(1, 60) {
+        let n = rng.range(17, 24) as usize;
+        let es: Vec<String> = (0..rng.range(2, 3)).map(|_| rng.pick(&p.dense_exprs).clone()).collect();
+        let t = *rng.pick(&p.instants);
+        threads = (0..n)
+            .map(|_| {
+                (0..rng.range(1, 2))
+                    .map(|_| {
+                        let e = rng.pick(&es).clone();
+                        if rng.chance(1, 2) {
+                            Op::Iter { e, c: Ctx::Default, t, n: rng.range(3, 20) as u32 }
+                        } else {
+                            Op::ScheduleAt { e, c: Ctx::Default, date: (2024, rng.range(1, 12) as u32, rng.range(1, 28) as u32) }
+                        }
+                    })
+                    .collect()
+            })
+            .collect();
+    }
+    let n_threads = threads.len();
+    // swarm, sizes: one workload in three hundred makes tens of thousands of distinct comments / expressions
+    if !c10 && rng.chance(1, 300) {
+        let kind = *rng.pick(&[0u8, 0, 1]);
+        let t = *rng.pick(&p.instants);
+        for th in 0..n_threads.min(2) {
+            threads[th].insert(0, Op::Churn { kind, seed: 10 + th as u32, n: rng.range(30_000, 45_000) as u32, t });
         }
     }
     // the simulated clock: one workload in five has threads that "sleep" between their operations
